@@ -41,7 +41,7 @@ def gen_init(rng, thorough=False):
     pool = [npcgen.gen_leg(rng, mods, max_blocks=4, max_size=2 if rng.random() < 0.6 else 3,
                            allow_empty=zero_size) for _ in range(npool)]
     for l in pool:   # a leg of length 0 makes every tensor empty: keep them rare
-        if npcgen.leg_len(l) == 0 and rng.random() < 0.8:
+        if npcgen.leg_len(l) == 0:   # from_func cannot build tensors with a leg without blocks
             l['slices'], l['charges'] = [0, 1], [npcgen.gen_charge(rng, mods)]
     if rng.random() < 0.5:  # a length-1 leg for squeeze
         pool.append(dict(mods=list(mods), slices=[0, 1], charges=[npcgen.gen_charge(rng, mods)],
